@@ -177,6 +177,16 @@ def run(ctx):
         r.ok("C16.sinks", "engine-unreachable", "%d functions reachable from rule_list.fix/check_rules, none contains a sink" % len(ereach))
     _read_error(r, p)
     _parse_error_swallow(r, p)
+    # "a file that fails to configure is never modified" needs the configuration error to be raised at all: the
+    # validation of the `rule` section (decided under C12.validate) is the producer of the error C16.order relies on
+    from . import c12 as _c12
+
+    scratch12 = Result("C12")
+    _c12._validate_exists(scratch12, p, p.function("vsg.rule_list:rule_list._validate_configuration_rule_exists"))
+    for f in scratch12.findings:
+        r.fail("C16.order", "configure-error-raised:" + f.key, "an invalid configuration may no longer stop the run before write-back: " + f.message, f.loc)
+    if not scratch12.findings:
+        r.ok("C16.order", "configure-error-raised", "every unknown name under `rule` raises ConfigurationError (loop never left early), which the ConfigurationError handler in apply_rules turns into a return before fix and write-back")
     return r
 
 
@@ -519,6 +529,9 @@ from ..selftest import Variant  # noqa: E402
 
 _AR = "vsg/apply_rules.py"
 VARIANTS = [
+    Variant("C16", "rule-name validation stops at the first pseudo name", "fire",
+            [("vsg/rule_list.py", "            if rule_does_not_exist_in_list(sRule, lRuleNames):", "            if is_global_configuration(sRule):\n                return\n            if rule_does_not_exist_in_list(sRule, lRuleNames):")],
+            rule="C16.order", key="configure-error-raised"),
     Variant("C16", "parse error swallowed whenever --fix is given", "fire",
             [("vsg/vhdlFile/vhdlFile.py", "            if self.commandLineArguments.force_fix and self.commandLineArguments.fix:\n                print(e.message)\n                print(\"\")\n                print(\"INFO:  The --force_fix option was enabled.\")\n                print(\"       Proceeding to analyze and apply fixes.\")\n                print(\"\")\n            else:\n                raise e", "            if not self.commandLineArguments.force_fix and not self.commandLineArguments.fix:\n                raise e\n            print(e.message)")], rule="C16.order", key="parse-error"),
     Variant("C16", "twin: force_fix handler written as a guard clause", "silent",
